@@ -84,6 +84,13 @@ def harness(L, sw, ch, sr, K, mode, via):
                 regs = list(core.split(data, sr=sr, sw=sw, ch=ch, **kw))
             elif via == "method":
                 regs = list(core.AudioRegion(data, sr, sw, ch).split(**kw))
+            elif via == "recorder":
+                # a recording reader (record=True / Recorder) handed to split() before anything was read from it
+                kw2 = {k: v for k, v in kw.items() if k != "analysis_window"}
+                cls = L.modules["util"].Recorder if e.choose(2) else None
+                rd = cls(data, block_dur=split_setup.aw, sr=sr, sw=sw, ch=ch) if cls else L.modules["util"].AudioReader(
+                    data, block_dur=split_setup.aw, sr=sr, sw=sw, ch=ch, record=True)
+                regs = list(core.split(rd, **kw2))
             else:
                 # an AudioRegion that carries its own start time (it came out of an earlier split) and a caller who also passes
                 # audio parameters: the region's own format wins and times are counted from the beginning of the input
@@ -232,7 +239,15 @@ def concrete_split(ak, c, data, via=None, extra=None):
         kw.update(extra)
     try:
         v_ = via or c.get("via")
-        if v_ in ("region+kwargs", "region+start"):
+        if v_ == "recorder":
+            kw2 = {k: v for k, v in kw.items() if k != "analysis_window"}
+            regs = list(ak.split(ak.AudioReader(data, block_dur=kw["analysis_window"], sr=sr, sw=sw, ch=ch, record=True), **kw2))
+            calls_a = list(calls)
+            del calls[:]
+            regs_b = list(ak.split(ak.Recorder(data, block_dur=kw["analysis_window"], sr=sr, sw=sw, ch=ch), **kw2))
+            if [(r.start, r.data) for r in regs] != [(r.start, r.data) for r in regs_b]:
+                regs = regs_b
+        elif v_ in ("region+kwargs", "region+start"):
             other = dict(sampling_rate=sr + 1, channels=ch + 1, sample_width=(4 if sw != 4 else 2)) if v_ == "region+kwargs" else {}
             reg_in = ak.AudioRegion(data, sr, sw, ch, start=2.5)
             regs = list(ak.split(reg_in, **other, **kw))
@@ -313,7 +328,7 @@ def run(rep):
     for i, (sw, ch) in enumerate(fm):
         for mode in (tok.MODES if (i == 0 or tier == "thorough") else (tok.MODES[i % 4],)):
             cfgs.append((sw, ch, byt.rates(tier)[i % 2], mode, "function" if i % 2 == 0 else "method"))
-    cfgs += [(2, 1, 10, 0, "region+kwargs"), (1, 2, 10, 4, "region+start")]
+    cfgs += [(2, 1, 10, 0, "region+kwargs"), (1, 2, 10, 4, "region+start"), (2, 1, 16000, 2, "recorder"), (1, 1, 16000, 6, "function")]
     if tier == "thorough":
         cfgs += [(2, 1, 16000, m, "method") for m in tok.MODES]
     for (sw, ch, sr, mode, via) in cfgs:
